@@ -9,7 +9,7 @@ import (
 )
 
 func init() {
-	core.Register(&core.Check{ID: "C03", Technique: "explicit-state exploration with taint tokens: every constructor composition up to the bound x every hostile string in every unsafe slot x stages {local, hop_K^k, unknowing hop, payload-blind hop} on the real code; oracle: no unsafe token in any PII-free output",
+	core.Register(&core.Check{ID: "C03", Technique: "explicit-state exploration with taint tokens: every constructor composition up to the bound x every hostile string in every unsafe slot x stages {local, hop_K^k, unknowing hop, payload-blind hop, previous-version sender (+relay)} on the real code; oracle: no unsafe token in any PII-free output",
 		Run: runC03})
 }
 
@@ -31,6 +31,25 @@ func c03Stages(thorough bool) []stage {
 			return tm.Decode(w2)
 		}},
 		{"Ubar", func(e error) error { return tm.Decode(tm.HidePayloadTypes(tm.Encode(e))) }},
+		// version skew: the sender runs the previous version of the library
+		// (barriers under their previous type name, plain-text message); the
+		// receiver then relays once more between current processes. nil =
+		// the history does not differ from K for this term.
+		{"prevK", func(e error) error {
+			w, changed := tm.AsPreviousSender(tm.Encode(e))
+			if !changed {
+				return nil
+			}
+			return tm.Decode(w)
+		}},
+		{"prevKK", func(e error) error {
+			w, changed := tm.AsPreviousSender(tm.Encode(e))
+			if !changed {
+				return nil
+			}
+			d, _ := tm.HopK(tm.Decode(w))
+			return d
+		}},
 	}
 	if thorough {
 		st = append(st, stage{"KK", func(e error) error { d, _ := tm.HopK(e); d, _ = tm.HopK(d); return d }})
@@ -94,6 +113,9 @@ func runC03(c *core.Ctx, r *core.Result) {
 				}
 				if p := tm.Guard(func() {
 					e := st.get(e0)
+					if e == nil {
+						return
+					}
 					plain := fmt.Sprintf("%+v", e)
 					for _, o := range tm.PIIFreeOutputs(e) {
 						for _, si := range toks {
